@@ -194,6 +194,7 @@ class SchedModel:
         return out
 
     def _discover_selection(self) -> None:
+        self.sel_subset: Optional[Tuple[str, str]] = None
         asg = self._assignments_in_loop(self.xn)
         if len(asg) != 1 or not isinstance(asg[0], ast.Assign):
             raise Undecided(f"selected node variable {self.xn}: expected one plain assignment in the loop, found {len(asg)}")
@@ -219,6 +220,20 @@ class SchedModel:
 
     def _selection_form(self, sel: ast.AST):
         """(form, R, key-expression) where form in max|min|sorted_last|sorted_first|any."""
+        # max(<nested zero-argument helper>(), key=..): the helper hands back the runnable set itself, or (recorded) a part of it
+        if isinstance(sel, ast.Call) and dotted(sel.func) in ("max", "min") and len(sel.args) == 1 and isinstance(sel.args[0], ast.Call) \
+                and isinstance(sel.args[0].func, ast.Name) and not sel.args[0].args and not sel.args[0].keywords:
+            h = next((g for g in self.P.funcs.values() if g.parent is self.fn and g.name == sel.args[0].func.id), None)
+            if h is not None:
+                rets = [n.value for n in iter_own_nodes(h.node) if isinstance(n, ast.Return) and n.value is not None]
+                whole = {x.id for x in rets if isinstance(x, ast.Name)}
+                parts = [x for x in rets if isinstance(x, (ast.SetComp, ast.ListComp, ast.GeneratorExp)) and isinstance(x.generators[0].iter, ast.Name)]
+                srcs = whole | {x.generators[0].iter.id for x in parts}
+                if rets and len(srcs) == 1 and len(whole) + len(parts) >= 1 and len([x for x in rets if isinstance(x, ast.Name)]) + len(parts) == len(rets):
+                    if parts:
+                        self.sel_subset = (h.name, norm_src(parts[0])[:100])
+                    key = next((k.value for k in sel.keywords if k.arg == "key"), None)
+                    return dotted(sel.func), srcs.pop(), key
         if isinstance(sel, ast.Call) and dotted(sel.func) in ("max", "min") and sel.args and isinstance(sel.args[0], ast.Name):
             key = next((k.value for k in sel.keywords if k.arg == "key"), None)
             if len(sel.args) != 1:
